@@ -442,4 +442,66 @@ def c02_ignoring(x=0):
     ok = bool(recs) and len(vals) == 7 and vals[0] == x and vals[1] == "text" and list(vals[2]) == ["a", "b"]
     return {"violates": not ok, "detail": f"record frame values {vals!r} (the format has n, s, l and the four metadata fields)"}
 
-CALLS = {"c02_concat": c02_concat, "c02_ignoring": c02_ignoring, "c02_registry_keeps": c02_registry_keeps, "c02_bare_name_latest": c02_bare_name_latest, "c02_refused_then_written": c02_refused_then_written, "c02_history_sweep": c02_history_sweep, "c02_golden": c02_golden, "c02_make_golden": c02_make_golden, "c02_reference_sweep": c02_reference_sweep, "c02_reference_decode": c02_reference_decode, "c02_reference_encode": c02_reference_encode, "c02_compat": c02_compat}
+
+def c02_value_form(ftype="net.ipaddress", src="IP4(1)"):
+    """the wire form of one field value, decoded by the independent reference codec, against the value forms of the format (frozen at the pinned revision)"""
+    import ipaddress
+    import pathlib
+
+    from flow.record import RecordDescriptor
+
+    v = eval(src, {"IP4": ipaddress.IPv4Address, "IP6": ipaddress.IPv6Address, "__import__": __import__})
+    r = RecordDescriptor("c02/val", [(ftype, "a")])(a=v)
+    recs = [e for e in R.decode_stream(_write([r])) if e[0] == "REC"]
+    got = recs[0][3][0]
+    def norm(x):
+        return [norm(y) for y in x] if isinstance(x, (list, tuple)) else x
+    if ftype == "net.ipaddress":
+        want = int(v)
+    elif ftype in ("net.ipnetwork", "uri"):
+        want = str(v)
+    elif ftype == "path":
+        want = [str(v).replace("/", "\\") if isinstance(v, pathlib.PureWindowsPath) else str(v), 1 if isinstance(v, pathlib.PureWindowsPath) else 0]
+    elif ftype == "digest":
+        want = [bytes.fromhex(v[0]) if v[0] else None, bytes.fromhex(v[1]) if v[1] else None, bytes.fromhex(v[2]) if v[2] else None]
+    elif ftype == "command":
+        want = [["ls", ["-l", "/tmp"]], 0]
+    else:
+        want = v
+    bad = norm(got) != norm(want) or type(norm(got)) is not type(norm(want))
+    return {"violates": bad, "detail": f"{ftype} value {src}: the stream carries {got!r}, the format has {want!r}"}
+
+
+def c02_nested_stream():
+    """a record holding records (record, record[] with element types new to the stream) decoded by the independent reference codec"""
+    from flow.record import RecordDescriptor
+
+    A = RecordDescriptor("c02/in_a", [("varint", "n")])
+    B = RecordDescriptor("c02/in_b", [("string", "s")])
+    C = RecordDescriptor("c02/in_c", [("varint", "k")])
+    N = RecordDescriptor("c02/holder", [("record", "one"), ("record[]", "many"), ("varint", "k")])
+    n = N(one=A(n=5), many=[B(s="v"), N(one=None, many=[C(k=3)], k=2)], k=1)
+    known, problems = set(), []
+
+    def ids(v, acc):
+        if isinstance(v, tuple) and v and v[0] == "REC":
+            acc.append((v[1], v[2]))
+            for x in v[3]:
+                ids(x, acc)
+        elif isinstance(v, (list, tuple)):
+            for x in v:
+                ids(x, acc)
+
+    try:
+        for e in R.decode_stream(_write([n])):
+            if e[0] == "DESC":
+                known.add((e[1], W.descriptor_hash(e[1], e[2])))
+            else:
+                acc = []
+                ids(e, acc)
+                problems += [f"record frame names the type {i!r} before its definition" for i in acc if i not in known]
+    except Exception as e:
+        problems.append(f"the reference codec cannot decode the stream: {type(e).__name__}: {e}")
+    return {"violates": bool(problems), "detail": problems[:3]}
+
+CALLS = {"c02_nested_stream": c02_nested_stream, "c02_value_form": c02_value_form, "c02_concat": c02_concat, "c02_ignoring": c02_ignoring, "c02_registry_keeps": c02_registry_keeps, "c02_bare_name_latest": c02_bare_name_latest, "c02_refused_then_written": c02_refused_then_written, "c02_history_sweep": c02_history_sweep, "c02_golden": c02_golden, "c02_make_golden": c02_make_golden, "c02_reference_sweep": c02_reference_sweep, "c02_reference_decode": c02_reference_decode, "c02_reference_encode": c02_reference_encode, "c02_compat": c02_compat}
